@@ -7,7 +7,7 @@ yields exactly the current keys in order, range fraction estimates are between 0
 tree node respects the ordering and size invariants."
 
 LEVEL: proof about executable models of the STRUCTURE of the btree, above and at the byte level
-of leaf nodes. Four models, all executed by `drv_c10` against the real code:
+of leaf nodes. Five models, all executed by `drv_c10` against the real code:
   * `Model/Btree.lean` — the CONTENT of a tree (strictly sorted (key, offset) list) with the
     map-level effect of `MergeAndSave` (`state.modify`'s asserts);
   * `Model/BtreeTree.lean` — the abstract B+-tree (leaves with their stored prefix length, tree
@@ -16,11 +16,18 @@ of leaf nodes. Four models, all executed by `drv_c10` against the real code:
   * `Model/BtreeMerge.lean` — `MergeAndSave` on the abstract tree: descent, `state.modify` with the
     exact prefix bookkeeping of `leafNode.insert/delete`, `split` at `nkeys/2` with the code's
     separators, `dropLeaf` with empty-node removal and root popping;
-  * `Model/BtreeCodec.lean` — the prefix-compressed leaf node byte layout.
+  * `Model/BtreeCodec.lean` — the prefix-compressed leaf node byte layout;
+  * `Model/BtreeRangeFrac.lean` — `RangeFrac` with exact rational arithmetic (the two `math.Pow`
+    fanouts are inputs).
+Modelling choices tied only by the correspondence (complete tree shape after every build and
+merge): the Builder's levels are run one after the other instead of as a pipeline; every batch
+entry descends from the root instead of reusing the cached path; binary searches are linear scans.
 Proved: `tree_inv_bulk`, `lookup_bulk`, `lookup_descent`, `bulk_build_content`, `tree_sem`,
-`tree_inv_merge`, `leaf_codec_roundtrip` (+ the older leaf-packing theorems).
-NOT proved / not modelled: the byte-SIZE limit after merges (false of the code: KF-C10-2, KF-C10-4
-stay open findings; `tree_inv_merge` therefore has the count clauses only), the tree-node byte
+`tree_inv_merge`, `tree_inv_merge_sizes` (+ `_size_counter`), `leaf_codec_roundtrip`,
+`rangeFrac_bounds` (+ the older leaf-packing theorems).
+NOT proved / not modelled: the byte-SIZE limit after merges for LONG keys (false of the code:
+KF-C10-2, KF-C10-4 stay open findings; `tree_inv_merge` has the count clauses only,
+`tree_inv_merge_sizes` the size clause under the short-key hypothesis), the tree-node byte
 codec, path copying / which nodes are rewritten, the float arithmetic of `RangeFrac`
 (see `rangeFrac_*` below for what is modelled).
 -/
@@ -28,13 +35,16 @@ import Gsu.Proofs.Btree
 import Gsu.Proofs.BtreeBulk2
 import Gsu.Proofs.BtreeCodec
 import Gsu.Proofs.BtreeMerge4
+import Gsu.Proofs.BtreeMerge6
+import Gsu.Proofs.BtreeMerge7
+import Gsu.Proofs.BtreeRangeFrac
 import Gsu.Model.BtreeLeaf
 import Gsu.Gen.Btree
 namespace Gsu.Props.C10
 open Gsu.Btree
 
-/-- tree_sem (map level, partial): an accepted batch turns a sorted content into a sorted content
-whose lookups are those of the abstract map after applying the entries in order
+/-- tree_sem at the map level (what `applyBatch` means; the name is kept, the tree-level statement
+is `tree_sem` below): an accepted batch turns a sorted content into a sorted content whose lookups are those of the abstract map after applying the entries in order
 (`add`/`upd` bind the key, `del` unbinds it). Iteration = the content list, so "iteration yields
 exactly the current keys in order" is `Sorted m'` plus these lookups. -/
 theorem tree_sem_partial (m m' : List KV) (b : List (Key × Op × Nat)) (hs : Sorted m)
@@ -128,6 +138,50 @@ theorem tree_inv_merge (split : Nat) (h2 : 2 ≤ split) (t t' : BTree) (b : List
     t'.Bounded ∧ t'.Counts split :=
   ⟨((mergeBatch_spec split b t hb).1 t' h).2, mergeBatch_counts h2 b t t' hc h⟩
 
+/-- the byte-size clause of tree_inv under `MergeAndSave`, with the hypothesis that excludes the
+open findings KF-C10-2 / KF-C10-4: if every key of the tree and of the batch has at most `L` bytes
+with `8 + split·(L + 7) ≤ maxNodeSize` (`L ≤ 74` for the production split 100) then — starting from
+a tree that satisfies `BTree.ShortKeys` (ordered, counts, keys and separators at most `L` bytes;
+the empty tree `CreateBtree` does, and every bulk-built tree with such keys: `bulk_short_keys`)
+— the merged tree satisfies it again and EVERY leaf and tree
+node has at most `maxNodeSize` bytes (separators are never longer than keys). -/
+theorem tree_inv_merge_sizes (split L : Nat) (h2 : 2 ≤ split)
+    (hL : 8 + split * (L + 7) ≤ maxNodeSizeM) (t t' : BTree) (b : List (Key × Op × Nat))
+    (hk : ∀ e ∈ b, e.1.length ≤ L) (hc : t.ShortKeys split L)
+    (h : t.mergeBatch split b = some t') : t'.ShortKeys split L ∧ BT.Sizes t'.h t'.root :=
+  ⟨mergeBatch_short h2 b t t' hk hc h, ShortKeys_sizes hL t' (mergeBatch_short h2 b t t' hk hc h)⟩
+
+/-- a bulk-built tree with short keys satisfies the hypothesis of `tree_inv_merge_sizes` -/
+theorem bulk_short_keys (split L : Nat) (h2 : 2 ≤ split) (hs : split ≤ 100) (kvs : List KV)
+    (hsort : Sorted kvs) (hk : ∀ e ∈ kvs, e.1.length ≤ L)
+    (hk2 : ∀ e ∈ kvs, e.1.length + 15 ≤ maxNodeSizeM) : (bulkBuild split kvs).ShortKeys split L :=
+  bulkBuild_short h2 hs kvs hsort hk hk2
+
+/-- the keys the counter-witness uses: 250 × 'p', three digits, 47 × 'f' -/
+def kf4key (i : Nat) : Key :=
+  List.replicate 250 112 ++ [UInt8.ofNat (48 + i / 100), UInt8.ofNat (48 + i / 10 % 10),
+    UInt8.ofNat (48 + i % 10)] ++ List.replicate 47 102
+
+/-- the leaf the bulk Builder makes of 60 such keys: one node, prefix 250 -/
+def kf4leaf : Leaf := ⟨250, (List.range 60).map fun i => (kf4key i, i + 1)⟩
+
+def resSizes : Res Leaf → List Nat
+  | .one l => [l.size]
+  | .two a _ b => [a.size, b.size]
+  | .gone => []
+
+set_option maxRecDepth 100000 in
+/-- counter-witness for the size clause WITHOUT the short-key hypothesis (open finding KF-C10-4,
+first seen on the real tree by the direct oracle, reproduced here by the model with the very same
+sizes): a leaf of 60 keys of 300 bytes sharing 250 bytes takes 3674 bytes; the single insert of
+`"zzz"`, which does not share the prefix, makes `leafNode.insert` drop the prefix and
+`state.split` store two leaves of 9214 and 9224 bytes (> `maxNodeSize` = 8192). -/
+theorem tree_inv_merge_size_counter :
+    kf4leaf.size = 3674 ∧
+    (Leaf.merge 100 kf4leaf [122, 122, 122] .add 7).map resSizes = some [9214, 9224] ∧
+    9214 > maxNodeSizeM := by
+  decide
+
 /-- end to end: a bulk-built tree (sorted input, production split range, keys that fit) followed
 by any number of accepted batches is ordered, within the count limits, and holds exactly the
 content of the ordered-map model -/
@@ -140,6 +194,31 @@ theorem bulk_then_merge (split : Nat) (kvs : List KV) (bs : List (List (Key × O
   have := foldl_merge_spec h2 bs (bulkBuild split kvs) t' h0.1 (RootLimits_counts _ h0.2) h
   rw [bulk_build_content] at this
   exact this
+
+/-- rangeFrac_bounds: the range fraction estimate (rational mirror of rangefrac.go with the
+two-sided clamp of the repaired code) is between 0 and 1 for every tree, count, range and fanout
+values. (By the final clamp; before fixes/10-rangefrac-clamp-upper.patch the code clamped below
+only and the direct oracle found results up to 1.04.) -/
+theorem rangeFrac_bounds (t : BTree) (count : Nat) (org end_ : Key) (fanA fanB : Rat) :
+    0 ≤ rangeFracQ t count org end_ fanA fanB ∧ rangeFracQ t count org end_ fanA fanB ≤ 1 :=
+  rangeFracQ_bounds t count org end_ fanA fanB
+
+/-- an empty range has fraction 0, the whole key space fraction 1 -/
+theorem rangeFrac_trivial (t : BTree) (count : Nat) (org end_ : Key) (fanA fanB : Rat) :
+    (org ≥ end_ → rangeFracQ t count org end_ fanA fanB = 0) ∧
+    rangeFracQ t count keyMin keyMax fanA fanB = 1 := by
+  constructor
+  · intro h; simp [rangeFracQ, h]
+  · have : ¬ keyMin ≥ keyMax := by decide
+    simp [rangeFracQ, this]
+
+/-- inside one leaf the estimate is exact: for a single-leaf tree the value before the clamp is
+the number of keys in `[org, end)` divided by the count -/
+theorem rangeFrac_exact_leaf (l : Leaf) (count : Nat) (org end_ : Key) (fanA fanB : Rat)
+    (hs : Sorted l.es) (h : org ≤ end_) :
+    rangeFracRaw ⟨0, l⟩ count org end_ fanA fanB =
+      ((l.es.countP (fun e => org ≤ e.1 ∧ e.1 < end_) : Nat) : Int) / ratOfNat count :=
+  rangeFracRaw_leaf l count org end_ fanA fanB hs h
 
 /-- size invariant of bulk-built leaves (mirror of `leafBuilder.tryAdd/add/size` + `Builder.addLeaf`,
 compared leaf by leaf — key count and byte size — with the real Builder by the suite): for the
@@ -178,6 +257,8 @@ example : (bulkBuild 2 [([1], 1), ([2], 2), ([3], 3), ([4], 4), ([5], 5)]).looku
 example : ((bulkBuild 2 [([1], 1), ([2], 2), ([3], 3), ([4], 4), ([5], 5)]).mergeBatch 2
     [([1], .del, 1), ([2], .del, 2), ([3, 0], .add, 9), ([3, 1], .add, 8)]).map (·.toList) =
     some [([3], 3), ([3, 0], 9), ([3, 1], 8), ([4], 4), ([5], 5)] := by decide
+example : emptyTree.ShortKeys 100 74 := emptyTree_short 100 74
+example : 8 + 100 * (74 + 7) ≤ maxNodeSizeM := by decide
 example : encodeLeaf ⟨1, [([7, 1], 5), ([7, 2, 3], 258)]⟩ =
     [2, 1, 0, 19, 0, 0, 0, 0, 5, 0, 20, 0, 0, 0, 1, 2, 0, 22, 7, 1, 2, 3] := by decide
 
@@ -190,6 +271,16 @@ theorem gen_constants :
     -- a full tree of `treeHeight` levels above the leaves cannot exceed the iterator's stack
     Gsu.Gen.Btree.treeHeight < Gsu.Gen.Btree.maxLevels := by
   refine ⟨by decide, by decide, rfl, by decide, rfl, rfl, rfl, rfl, by decide⟩
+
+/-- (G) the tree model mirrors today's source: the extractor checked the 17 statements the abstract
+tree / merge / codec models mirror (`Builder.sep`, the `addTree` close condition, `shouldSplit`, the
+split positions and separators, the prefix rules of `insert` / `delete` / `finishInto`, root popping)
+and the constants of `rangeFrac` (`smallRoot`, the spread limit, `maxToRead`, the two-sided clamp) -/
+theorem gen_tree_model :
+    Gsu.Gen.Btree.treeShapes = 17 ∧ Gsu.Gen.Btree.maxNodeSize = maxNodeSizeM ∧
+    Gsu.Gen.Btree.smallRoot = smallRootM ∧ Gsu.Gen.Btree.rfSpread = spreadM ∧
+    Gsu.Gen.Btree.rfMaxToRead = maxToReadM ∧ Gsu.Gen.Btree.rfClampBoth = 1 :=
+  ⟨rfl, rfl, rfl, rfl, rfl, rfl⟩
 
 /-- (G) the leaf builder's limit, size estimate and prefix cap as written in leafnode.go today are
 the ones the mirror uses (the extractor also fails when `tryAdd` no longer tests the count, then
